@@ -417,7 +417,8 @@ def build_real(t, rix=None):
         return M.NullMatcher()
     if k == "list":
         ids, ws, sc = t[1], t[2], t[3]
-        return M.ListMatcher(list(ids), list(ws), scorer=WeightScorer(max(ws) if ws else 0.0) if sc else None)
+        return M.ListMatcher(list(ids), list(ws), scorer=WeightScorer(max(ws) if ws else 0.0) if sc else None,
+                             term=("f", "L"))
     if k == "term":
         return rix.leaf(t[1])
     if k == "union":
